@@ -1051,6 +1051,10 @@ func (c *Ctx) ruleFullBuildAndRemoval(rule string) {
 				if x.Cell(v) == listCell {
 					return true
 				}
+				// the slice the list variable was made as (`list := make(..)`, never re-sliced or grown: its one value)
+				if mk, isMk := x.Origin(v).(*ssa.MakeSlice); isMk && len(x.stores[listCell]) == 1 && x.Origin(x.stores[listCell][0].Val) == ssa.Value(mk) {
+					return true
+				}
 				// the field read back after the list was stored into it
 				if b, is := x.isFieldLoad(v, "KnowledgeContext", "SortRules"); is && x.freshKc(b) {
 					if ld, isLd := x.Origin(v).(*ssa.UnOp); isLd && domInstr(listSt, ld) {
@@ -1064,9 +1068,21 @@ func (c *Ctx) ruleFullBuildAndRemoval(rule string) {
 		}
 		// list every parsed rule once: range over kc.RuleEntities, unconditional append to the list
 		okList := false
+		var fillMap ssa.Value
+		isListLen := func(arg ssa.Value) bool {
+			return isList(arg) || (fillMap != nil && x.sameValue(arg, fillMap))
+		}
 		eachInstr(f, func(in ssa.Instruction) {
 			st, ok := in.(*ssa.Store)
 			if !ok {
+				return
+			}
+			// `list[i] = v; i++` in the range over the name map, the list made with one position per name
+			if lst, m, _, isFill := x.filledFromMap(st); isFill && isList(lst) {
+				if b, is := x.isFieldLoad(m, "KnowledgeContext", "RuleEntities"); is && x.freshKc(b) {
+					okList = true
+					fillMap = m // the list has one position per name: a test of len(map) is a test of len(list)
+				}
 				return
 			}
 			if listCell != nil {
@@ -1113,7 +1129,7 @@ func (c *Ctx) ruleFullBuildAndRemoval(rule string) {
 					for _, g := range x.GuardsOf(call.Block()) {
 						// a length test on the list may only exclude lengths below two
 						if arg, tlo, thi, flo, fhi, isLT := x.lenTest(g.Cond); isLT {
-							if isList(arg) {
+							if isListLen(arg) {
 								lo, hi := tlo, thi
 								if !g.Pol {
 									lo, hi = flo, fhi
@@ -1173,7 +1189,7 @@ func (c *Ctx) ruleFullBuildAndRemoval(rule string) {
 				if !isIf {
 					continue
 				}
-				if arg, _, thi, _, fhi, isLT := x.lenTest(iff.Cond); isLT && isList(arg) {
+				if arg, _, thi, _, fhi, isLT := x.lenTest(iff.Cond); isLT && isListLen(arg) {
 					if thi <= 1 {
 						short[edgeKey{b, 0}] = true
 					}
